@@ -116,9 +116,11 @@ NextWrite ==
   /\ dst' = ToFile(dst, WBytes) /\ w' = w + 1
   /\ UNCHANGED <<t, rep, dk>>
 
-Next == \/ rep = NoRep /\ \E r \in RepsOf(t.cls) : Construct(r)
-        \/ rep # NoRep /\ w = 0 /\ \E k \in DestKinds : FirstWrite(k)
-        \/ NextWrite
+\* (guards first: TLC then does not enumerate the quantified sets in states where the action is disabled)
+ConstructAny  == rep = NoRep /\ \E r \in RepsOf(t.cls) : Construct(r)
+FirstWriteAny == rep # NoRep /\ w = 0 /\ \E k \in DestKinds : FirstWrite(k)
+
+Next == ConstructAny \/ FirstWriteAny \/ NextWrite
 
 Spec == Init /\ [][Next]_vars
 
@@ -138,7 +140,7 @@ WriteInv == w > 0 => WroteOK(t, rep, dk, w, dst)
 AgreeAllInv == rep = NoRep => AgreeAll(t)
 
 TypeOK ==
-  /\ t.cls \in Classes /\ rep \in RepsOf(t.cls) \cup {NoRep} /\ w \in 0..MaxWrites
+  /\ t.cls \in Classes /\ (rep = NoRep \/ Applicable(rep, t.cls) # {}) /\ w \in 0..MaxWrites
   /\ (rep = NoRep => w = 0)
   /\ (w = 0) = (dk = "none") /\ (w > 0 => dk \in DestKinds)
 
@@ -158,7 +160,7 @@ StateRec ==
       rep |-> rep,
       base |-> Base(rep, t.cls),
       per |-> PerDType,
-      sbytes |-> s.bytes, entries |-> s.entries, file |-> s.file, off |-> s.off, len |-> s.len,
+      scodes |-> s.codes, sbytes |-> s.bytes, entries |-> s.entries, file |-> s.file, off |-> s.off, len |-> s.len,
       bytes |-> IF hb THEN Pack(t.cls, t.codes) ELSE <<>>,
       nbytes |-> IF hb THEN NBytes(t.cls, t.n) ELSE -1,
       w |-> w, dk |-> dk,
